@@ -41,6 +41,10 @@ open Lungo.C11
 #print axioms Lungo.C11.apply_never_panics
 #print axioms Lungo.C11.updatePaths_key_mem
 #print axioms Lungo.C11.updatePaths_rename_target_mem
+#print axioms Lungo.C11.firstDiff_some_iff
+#print axioms Lungo.C11.positionalClash_index_iff
+#print axioms Lungo.C11.positionalClash_iff
+#print axioms Lungo.C11.positionalClash_symm
 #print axioms Lungo.C11.pathsConflict_iff
 #print axioms Lungo.C11.conflict_rejected
 #print axioms Lungo.C11.accepted_conflict_free
